@@ -8,6 +8,7 @@ CHECK = {
     "gen": [{"pkg": "extract_c07", "out": "lean/ClusterVerif/Gen/C07.lean"}],
     "suites": [
         suite("auth", "c07", 160, 1600, stdin=True, args=["-suite", "auth"], timeout={"quick": 600, "thorough": 1800}),
+        suite("pol", "c07", 60, 600, stdin=True, args=["-suite", "pol"], timeout={"quick": 300, "thorough": 900}),
         suite("rep", "c07", 10, 160, stdin=True, args=["-suite", "rep"], timeout={"quick": 600, "thorough": 2400}),
     ],
     "lean_sources": ["ClusterVerif/Model/C07.lean", "ClusterVerif/Model/C07Sys.lean", "ClusterVerif/Spec/C07.lean", "ClusterVerif/Gen/C07.lean",
